@@ -15,6 +15,10 @@ CLAIMED["C14"] = ("concolic execution (pysym+z3) of core/switch.py with all sche
                   "bounded SMT verification: for all 128 None-patterns and all real-valued schedule parameters z3 shows the on/off decision, on-list and index map equal the documented window rule (T <= bound); symbolic fields/detector states show inactive steps add/record nothing and active steps write exactly row idx[t]",
                   "reals for floats (edge ties decided by exact arithmetic); T <= 6 quick / 12 thorough; fixed lists of length <= 3", "4/C14")
 
+CLAIMED["C01"] = ("jaxpr->SMT (z3) of two forward steps; discrete energy as one polynomial identity over all field values",
+                  "bounded SMT verification: for every listed closed source-free scene (zero halo / PEC / PMC / periodic / Bloch / mixed faces; uniform and non-uniform grids; isotropic and diagonal eps, mu) z3 shows W(step k+1) == W(step k) for all real field values from an arbitrary wall-consistent state (inductive over steps); with conductivity the dissipation certificate identity and the sign of every certificate term",
+                  "reals for floats; shapes <= 5x4x3; materials and conductivities are seeded exact rationals (not symbolic); oracle weights are the geometric staggered volumes", "4/C01")
+
 NOT_APPLICABLE = {
     "C12": "numerical accuracy bound (1e-6 residual energy after >=1e3 steps on >=40^3 cells in floating point); no algebraic identity, far beyond any bounded real-arithmetic encoding",
     "C13": "1e-3 power-ratio bound after hundreds of steps (TFSF leakage is small but non-zero by design); not an identity, out of reach for bounded real arithmetic",
